@@ -621,7 +621,8 @@ impl SymbolTable {
 
         let mut cursor: Option<Cursor> = None;
         let mut label_map: HashMap<String, SymbolData> = HashMap::new();
-        let mut rel_map = HashMap::new();
+        // Every `.fill LABEL` inside a block: (address, label).
+        let mut label_fills: Vec<(u16, String)> = vec![];
         let mut debug_sym = src.map(|s| {
             let src_info = SourceInfo::new(s);
             (vec![None; src_info.count_lines()], src_info)
@@ -662,12 +663,14 @@ impl SymbolTable {
                 }
                 StmtKind::Directive(Directive::Fill(PCOffset::Label(label))) => {
                     let label_text = label.name.to_uppercase();
-                    if let Some(SymbolData { external: true, .. }) = label_map.get(&label_text) {
-                        let Some(cur) = cursor.as_ref() else {
+                    match cursor.as_ref() {
+                        // Whether this label is external is only known once every statement
+                        // has been seen (`.external` may follow its uses),
+                        // so remember the site and decide after the pass.
+                        Some(cur) => label_fills.push((cur.lc, label_text)),
+                        None => if let Some(SymbolData { external: true, .. }) = label_map.get(&label_text) {
                             return Err(AsmErr::new(AsmErrKind::UndetAddrStmt, stmt.span.clone()));
-                        };
-
-                        rel_map.insert(cur.lc, label_text);
+                        },
                     }
                 },
                 _ => {}
@@ -696,6 +699,12 @@ impl SymbolTable {
         if let Some(cur) = cursor {
             return Err(AsmErr::new(AsmErrKind::UnclosedOrig, cur.block_orig));
         }
+
+        // Relocation table: every `.fill` of a label that is external,
+        // wherever its `.external` declaration stands.
+        let rel_map = label_fills.into_iter()
+            .filter(|(_, label)| matches!(label_map.get(label), Some(SymbolData { external: true, .. })))
+            .collect();
         
         let debug_symbols = debug_sym.map(|(lines, src_info)| DebugSymbols {
             line_map: LineSymbolMap::new(lines)
